@@ -1335,7 +1335,15 @@ HttpHeader::getCc() const
 
     HttpHdrCc *cc=new HttpHdrCc();
 
-    if (!cc->parse(s)) {
+    // Parse each field line on its own: a malformed line (e.g., one with an
+    // unterminated quoted-string) must not hide the directives of other lines.
+    bool parsedSome = false;
+    for (const auto e: entries) {
+        if (e && e->id == Http::HdrType::CACHE_CONTROL && cc->parse(e->value))
+            parsedSome = true;
+    }
+
+    if (!parsedSome) {
         delete cc;
         cc = nullptr;
     }
